@@ -3,7 +3,7 @@
 From Coq Require Import String List NArith Bool.
 From J5V.lib Require Import Outcome Strcase.
 From J5V.model Require Import J5sAst Desc J5sWalk J5sLink J5sConvert J5sContract J5sValid J5sEdit J5sCorr.
-From J5V.proofs Require Import J5sProofs J5sContractProofs J5sEditProofs J5sExtProofs J5sPkgExtProofs J5sWitnessProofs.
+From J5V.proofs Require Import J5sProofs J5sContractProofs J5sEditProofs J5sExtProofs J5sPkgExtProofs J5sC13Proofs J5sWitnessProofs.
 Import ListNotations.
 Local Open Scope N_scope.
 
@@ -95,18 +95,26 @@ Proof.
 Qed.
 Print Assumptions C13_package_append_preserves.
 
-(* the property at full strength: for every valid package and every sequence of append edits
-   (fold_left over the list) that leaves it valid, the edited package compiles and every
-   previously generated file, message, field, enum value, service and method is unchanged
-   (embedded: J5sEdit.files_ext).  Proved so far: existence (the edited package compiles:
-   C02_valid_packages_compile) and the embedding for whole packages before the link step
-   (C13_package_append_preserves); the composition through the link step is not yet a theorem
-   (the link step only qualifies type names: J5sLink.v). *)
+(* the property at full strength, on the linked descriptors (what CompilePackage returns): for
+   every valid bundle whose files lie in package directories, every package of it and every
+   sequence of append edits (fold_left over the list: apply_edits) each of which addresses a
+   source file, is applicable and leaves the bundle valid (seq_ok), the edited package compiles
+   and every previously generated file, message, field (name, JSON name, number, type, label,
+   optionality, fully qualified type name), nested message, enum value (name, number), service
+   and method (types, HTTP rule) is unchanged: the old descriptors embed into the new ones
+   (J5sEdit.files_ext).  Proved by induction over the edit list; the single step composes the
+   per-file embedding, the growth of the environment, the package-level file list and the fact
+   that qualifying type names commutes with the embedding. *)
 Definition C13_full_statement : Prop :=
-  forall bd es pkg D,
-    valid bd = true -> valid (apply_edits bd es) = true ->
-    compile bd pkg = Ok D ->
-    exists D', compile (apply_edits bd es) pkg = Ok D' /\ files_ext D D'.
+  forall es bd pkg D,
+    J5sC13Proofs.valid bd = true -> (forall x, In x bd -> bfile_pkg x <> []) -> seq_ok bd es ->
+    (exists x, In x bd /\ bfile_pkg x = pkg) ->
+    J5sC13Proofs.compile bd pkg = Ok D ->
+    exists D', J5sC13Proofs.compile (apply_edits bd es) pkg = Ok D' /\ files_ext D D'.
+
+Theorem C13_full : C13_full_statement.
+Proof. exact c13_full. Qed.
+Print Assumptions C13_full.
 
 (* regression example (defect repaired by 2ef7c92): `object Foo { field x object {} }` and the same
    with `field foo object {}` appended both compile, and the existing field x keeps its type *)
